@@ -352,4 +352,38 @@ theorem handlerInvocation_named (h : Handler) (hord : h.sig.Pairwise kindOrder) 
   simp only [signatureInfo] at this
   simp only [handlerInvocation, handlerInvocationV, this, checkNamed_closed]
 
+/-! ## the pinned variant differs only on keyword-only parameters without default -/
+
+theorem step_pinned_eq (st : St) (p : Param) (h : (isKO p && !p.dflt) = false) :
+    step .pinned st p = step .repaired st p := by
+  obtain ⟨k, nm, d⟩ := p
+  cases k <;> cases d <;> simp [step, isKO] at h ⊢
+
+theorem loop_pinned_eq (s : Sig) (h : reqKw s = []) :
+    ∀ st, loop .pinned st s = loop .repaired st s := by
+  induction s with
+  | nil => intro st; rfl
+  | cons p ps ih =>
+    intro st
+    rw [reqKw_cons] at h
+    have hp : (isKO p && !p.dflt) = false := by
+      cases hc : (isKO p && !p.dflt) with
+      | false => rfl
+      | true => rw [hc] at h; simp at h
+    have hps : reqKw ps = [] := by
+      rw [hp] at h; simpa using h
+    simp only [loop, step_pinned_eq st p hp]
+    cases step .repaired st p with
+    | error e => rfl
+    | ok st1 => exact ih hps st1
+
+theorem handlerInvocationPinned_eq (h : Option Handler) (args : Args)
+    (hk : ∀ h', h = some h' → reqKw h'.sig = []) :
+    handlerInvocationPinned h args = handlerInvocation h args := by
+  cases h with
+  | none => rfl
+  | some h' =>
+    simp only [handlerInvocationPinned, handlerInvocation, handlerInvocationV, signatureInfoV,
+      loop_pinned_eq h'.sig (hk h' rfl)]
+
 end Aiorpcx.C19
